@@ -333,7 +333,7 @@ def rule_sender_hooks(ctx, rule):
     ps = ctx.paths(s, slots.RSocketClient, exc=('app', 'cancel', 'transport'), inline_depth=1,
                    no_inline={'_before_sender', '_finally_sender', 'is_server_alive', '_current_transport',
                               '_log_identifier', '_get_next_frame_to_send', '_fail_sent_future'}, max_paths=4000)
-    ok_b = ok_f = True
+    ok_b = ok_f = ok_t = True
     n = 0
     for p in ps:
         if p.outcome == 'cut':
@@ -344,6 +344,12 @@ def rule_sender_hooks(ctx, rule):
         alive = [e for e in p.events if e.kind == 'call' and e.data.get('name') == 'is_server_alive']
         if alive and (len(before) != 1 or before[0].seq > alive[0].seq):
             ok_b = False
+        # ... and only once the connection exists: the hook starts the keepalive clock, which must not run while the
+        # transport provider is still retrying - the periods would be counted from connect() and the KEEPALIVEs pile
+        # up behind SETUP
+        got = [e for e in p.events if e.kind == 'call' and e.data.get('name') == '_current_transport']
+        if before and (not got or got[0].seq > before[0].seq):
+            ok_t = False
         if len(fin) != 1:
             ok_f = False
     if n == 0:
@@ -351,6 +357,10 @@ def rule_sender_hooks(ctx, rule):
     rep.add(rule, 'RSocketBase._sender / _before_sender() once, before the send loop', s, ok_b,
             'called exactly once before the first liveness test on all %d paths' % n if ok_b else
             'the send loop can start without _before_sender(): the client\'s keepalive task is never started')
+    rep.add(rule, 'RSocketBase._sender / _before_sender() only after the transport has been obtained', s, ok_t,
+            'await self._current_transport() precedes the hook on every path' if ok_t else
+            '_before_sender() runs before the transport future is awaited: the client\'s keepalive emitter runs from '
+            'connect() on, not from the moment the client is connected')
     rep.add(rule, 'RSocketBase._sender / _finally_sender() on every exit', s, ok_f,
             'awaited exactly once on all %d paths (normal, cancel, transport error, other exceptions)' % n if ok_f else
             'the sender can end without _finally_sender(): the keepalive tasks of the connection keep running')
